@@ -141,14 +141,11 @@ def cscale (s : Float) : Cx := ⟨s, 0.0⟩
 
 /-- the filter spectrum `h_dft` the constructor builds over the axes `dims`: `fftn(h, s=dims)` times the shift
     phases of the (possibly fractional) centres -/
-def phasesNd : List Nat → List Float → Nat → Cx
-  | n :: ds, c :: cs, p => shiftPhase expC cosC Nat.toFloat (-c) n (p / prodL ds) * phasesNd ds cs (p % prodL ds)
-  | _, _, _ => 1
-
 def hdftNd (dims ks : List Nat) (cen : List Float) (h : V Cx) : Array Cx :=
   let ws := dims.map (fun n => rootC n false)
   let H0 := ctab (prodL dims) (dftNd dims ws (padNd ks dims h))
-  ctab (prodL dims) (fun f => cget H0 f * phasesNd dims cen f)
+  -- the constructor's phases: `shiftPhaseNd` with offset `−h_center`
+  ctab (prodL dims) (fun f => cget H0 f * shiftPhaseNd expC cosC Nat.toFloat (cen.map (fun c => -c)) dims f)
 
 def jCMat (A : Nat → Nat → Cx) (r c : Nat) : Json :=
   let es := (List.range r).flatMap (fun i => (List.range c).map (A i))
